@@ -12,7 +12,6 @@ verus! {
 pub struct ExGenericPatriciaMap<K, V>(GenericPatriciaMap<K, V>);
 
 #[verifier::external_type_specification]
-#[verifier::external_body]
 pub struct ExIpNet(packet::IpNet);
 
 #[verifier::external_type_specification]
